@@ -493,6 +493,10 @@ func checkA(c CaseA, ev *evid.Collector) []*evid.Violation {
 			validBody = false
 		}
 	}
+	// the media type the served document itself states at its top level (a hand-built JWS
+	// envelope may keep it in formatTail only)
+	sti := scanTop(served)
+	bodyStatesMT := sti.HasMT && sti.DeclaredMT == famMT(c.Family)
 	var dirs []string
 	tmp := func() string {
 		d, err := os.MkdirTemp("", "c02-")
@@ -564,7 +568,7 @@ func checkA(c CaseA, ev *evid.Collector) []*evid.Violation {
 			add("nil-manifest-without-error", "the call returned neither a manifest nor an error")
 			return vs
 		}
-		if validBody && c.Origin == "gen" && c.allCorrect() {
+		if validBody && c.Origin == "gen" && c.allCorrect(bodyStatesMT) {
 			add("valid-manifest-rejected", "every supplied digest and media type is correct, yet the call failed: %v (served %s)", f.err, clip(served))
 		}
 		ev.Class("error:" + errClass(f.err))
@@ -580,7 +584,7 @@ func checkA(c CaseA, ev *evid.Collector) []*evid.Violation {
 		if !s.MJErr && len(s.MJ) > 0 {
 			add("unset-manifest-marshals", "IsSet()=false but MarshalJSON() returned %d bytes", len(s.MJ))
 		}
-		if validBody && c.Origin == "gen" && c.allCorrect() && c.Entry != "reg-head" && len(served) > 0 {
+		if validBody && c.Origin == "gen" && c.allCorrect(bodyStatesMT) && c.Entry != "reg-head" && len(served) > 0 {
 			add("valid-manifest-returned-unset", "a non-empty valid body was served but the manifest is not set")
 		}
 		return vs
@@ -632,7 +636,7 @@ func checkA(c CaseA, ev *evid.Collector) []*evid.Violation {
 
 // allCorrect: every supplied digest names the bytes, every media type hint is
 // absent or matching and at least one of them (or the body) states the type.
-func (c *CaseA) allCorrect() bool {
+func (c *CaseA) allCorrect(bodyStatesMT bool) bool {
 	okDig := func(mode string) bool {
 		switch mode {
 		case "absent", "ok256", "ok512":
@@ -688,7 +692,7 @@ func (c *CaseA) allCorrect() bool {
 	if c.Entry == "reg-head" {
 		return ct != "absent"
 	}
-	stated := ct != "absent" || dm != "absent" || c.Info.BodyMT == "present"
+	stated := ct != "absent" || dm != "absent" || (c.Info.BodyMT == "present" && bodyStatesMT)
 	return stated
 }
 
